@@ -90,12 +90,27 @@ def run_c11(tier, seed, replay):
     else:
         units += [(M022, 0, cheap_flat, True)]
 
+    # synthetic WIDE networks: many frozen inputs around a small dynamic core -- state spaces beyond
+    # 2^53 (where floating-point cardinalities stop being exact) with tiny BDDs; "any size" in C11
+    wide = []
+    for wi, (n_in, core) in enumerate([(60, "$a: true\n$b: a\na -> b\n$c: b\nb -> c\n"),
+                                       (58, "$a: !b\nb -| a\n$b: a\na -> b\n$c: b & i0\nb -> c\ni0 -> c\n")]):
+        txt = "".join("i%d -> i%d\n$i%d: i%d\n" % (q, q, q, q) for q in range(n_in)) + core
+        pth = os.path.join(wd, "wide-%d.aeon" % wi)
+        open(pth, "w").write(txt)
+        wide.append(pth)
+        units.append((pth, 0, flat, True))
+
     def replay_one(i_unit):
         i, (rel, k, ls_, with_oracles) = i_unit
         r2 = random.Random(seed * 31 + i)
         insts = []
-        for j in range(2 if thorough else 1):
+        is_wide = rel in wide
+        for j in range((3 if is_wide else 2) if thorough else (2 if is_wide else 1)):
             args = {l: {"t": "randbool", "height": r2.choice([2, 3, 4]), "seed": r2.randrange(1 << 30)} for l in ("S", "T", "R")}
+            if is_wide:
+                # a single state / all but a single state: iterations that move a handful of states
+                args[("S", "T")[j % 2]] = {"t": ("cocube", "cube")[j % 2], "seed": r2.randrange(1 << 30)}
             if j == 1 and k >= 1:
                 args["S"] = {"t": "formula", "f": "!{x}: AX {x}"}
             ls = [{"id": l["id"], "lhs": gen.render(l["lhs"]), "rhs": gen.render(l["rhs"])} for l in ls_]
